@@ -97,7 +97,7 @@ def apply_row_pattern(data, N, pattern, run=3):
     return [x for row in rows for x in row]
 
 
-VALID_PATTERNS = ["random", "random", "random", "all", "all_but_last", "all_but_first", "none_but_last"]
+VALID_PATTERNS = ["random", "random", "random", "all", "all_but_last", "all_but_first", "none_but_last", "every_third"]
 
 
 def apply_valid_pattern(valid, N, pattern):
@@ -110,6 +110,8 @@ def apply_valid_pattern(valid, N, pattern):
         return [True] * (len(valid) - width) + [False] * width
     if pattern == "all_but_first":
         return [False] * width + [True] * (len(valid) - width)
+    if pattern == "every_third":
+        return [(i // width) % 3 != 2 for i in range(len(valid))]
     return [False] * (len(valid) - width) + [True] * width
 
 
